@@ -173,3 +173,72 @@ func VH_C13_noSignal_runsAll() {
 	vhAssert(run.Signals.Sync == base.SigNone, "the end-of-code signal is consumed")
 	vhReach("end")
 }
+
+// a function with a defer statement: the interrupt arrives a few statements before the defer executes
+func VH_C13_interrupt_beforeDefer() {
+	pre := vhPick("plain statements before the defer", 16)
+	k := vhPick("statement call at which Ctrl-C arrives", 20)
+	run := &Run{IrGlobals: &IrGlobals{}}
+	env := &Env{Run: run}
+	calls, after, deferred := 0, 0, 0
+	signalled := false
+	tick := func() {
+		if calls == k {
+			run.interrupt()
+			signalled = true
+		}
+		calls++
+		if signalled {
+			after++
+			if after > vhPollBound {
+				panic("statements keep running after the interrupt")
+			}
+		}
+	}
+	list := make([]Stmt, 0, pre+2)
+	for i := 0; i < pre; i++ {
+		list = append(list, func(env *Env) (Stmt, *Env) {
+			tick()
+			env.IP++
+			return env.Code[env.IP], env
+		})
+	}
+	list = append(list, func(env *Env) (Stmt, *Env) {
+		tick()
+		env.IP++
+		run := env.Run
+		run.InstallDefer = func() { deferred++ }
+		run.Signals.Sync = base.SigDefer
+		return run.Interrupt, env
+	})
+	loopAt := len(list)
+	list = append(list, func(env *Env) (Stmt, *Env) {
+		tick()
+		env.IP = loopAt
+		return env.Code[loopAt], env
+	})
+	code := &Code{List: list, DebugPos: make([]token.Pos, len(list)), WithDefers: true}
+	f := code.Exec()
+	rec := vhRunRecover(func() { f(env) })
+	vhAssert(rec == interface{}(base.SigInterrupt), "an interrupt arriving shortly before a defer statement is still delivered")
+	vhAssert(after <= 32, "the function stops within two polling intervals of the interrupt")
+	if k > pre {
+		vhAssert(deferred == 1, "the deferred call installed before the interrupt runs exactly once")
+	} else {
+		vhAssert(deferred <= 1, "a deferred call runs at most once")
+	}
+	vhReach("end")
+}
+
+// an endless loop that is being stepped over by the debugger (next/finish: no stops inside)
+func VH_C13_interrupt_whileSteppingOver() {
+	k := vhPick("statement call at which Ctrl-C arrives", 40)
+	w, f := vhInfiniteLoop(k, base.OptDebugger, 0)
+	w.run.Signals.Debug = base.SigDebug
+	w.run.DebugDepth = 1 // the loop runs at call depth 1: not shallower than the stop depth, so the debugger stays silent
+	rec := vhRunRecover(func() { f(w.env) })
+	vhAssert(rec == interface{}(base.SigInterrupt), "an interrupt is delivered while the debugger steps over a loop")
+	vhAssert(w.after <= 16, "the loop stops within one polling interval of the interrupt")
+	vhAssert(w.dbgAt == 0, "the debugger was not consulted inside the stepped-over loop")
+	vhReach("end")
+}
